@@ -94,6 +94,14 @@ public:
         , XMLBufferMgr* const       bufMgr
     );
 
+    /**
+      * To be called after setScannerInfo() when a DTD is scanned on its own
+      * (XMLScanner::loadGrammar): there is no document entity then, so
+      * everything that is read is part of the external subset and its
+      * declarations are externally declared.
+      */
+    void setScanningStandaloneDTD();
+
     void setDocTypeHandler
     (
             DocTypeHandler* const handlerToSet
@@ -269,6 +277,11 @@ inline void DTDScanner::setDocTypeHandler(DocTypeHandler* const handlerToSet)
 // -----------------------------------------------------------------------
 //  Helper methods
 // -----------------------------------------------------------------------
+inline void DTDScanner::setScanningStandaloneDTD() {
+    // reader numbers start at 1, so no reader is the "doctype" reader
+    fDocTypeReaderId = 0;
+}
+
 inline bool DTDScanner::isReadingExternalEntity() {
     return (fDocTypeReaderId != fReaderMgr->getCurrentReaderNum());
 }
